@@ -15,6 +15,7 @@ the cache mutex, so an interleaving of goroutines is a sequence of operations.
                                                    fresh generation returns, for the asking proxy
 * `never_stale_incoherent_witness`                 the discipline is necessary (model-level witness, cf. F8)
 * `key_injective_invisible`, `key_incomplete_witness`  sharing across proxies is exactly key (in)completeness
+* `index_justified`, `flush_no_leak`                after `Flush` the reverse index holds exactly the live dependencies
 * `impl_*`                                         `XdsCacheImpl`: dispatch, PeerAuthentication => EDS ClearAll
 -/
 set_option linter.unusedSectionVars false
@@ -572,6 +573,232 @@ theorem key_incomplete_witness :
     have := h 1 2 rfl
     simp [Dbad] at this
   · exact ⟨Or.inr ⟨1, 0, rfl, by simp, rfl, fun j hj => by simp at hj⟩, trivial⟩
+
+/-! ## The SDS key and the private key provider (finding fixed in /repo, see notes/C06.md)
+
+`SecretGen.generate` reads the private key provider of the *effective* ProxyConfig
+(`proxy.Metadata.ProxyConfigOrDefault(meshConfig.GetDefaultConfig())`): the proxy's own ProxyConfig when
+it sent one, else the mesh-wide default. Before the fix `parseResources` hashed only the proxy's own
+ProxyConfig into `SecretResource.Key`. -/
+
+/-- what SDS generation reads of a request, besides the resource name: `cfg = none` - the proxy sent
+    no ProxyConfig; `some none` - a ProxyConfig without private key provider; `some (some p)` - provider `p` -/
+structure SdsReq where
+  name : Nat
+  cfg : Option (Option Nat)
+  deriving DecidableEq
+
+/-- `ProxyConfigOrDefault(mesh default).GetPrivateKeyProvider()` -/
+def SdsReq.effective (mesh : Option Nat) (r : SdsReq) : Option Nat :=
+  match r.cfg with
+  | none => mesh
+  | some p => p
+
+/-- the key before the fix: `(*ProxyConfig)(proxy.Metadata.ProxyConfig).GetPrivateKeyProvider()` (nil-safe getter) -/
+def SdsReq.keyUnfixed (r : SdsReq) : Nat × Option Nat := (r.name, r.cfg.join)
+/-- the key after the fix -/
+def SdsReq.keyFixed (mesh : Option Nat) (r : SdsReq) : Nat × Option Nat := (r.name, r.effective mesh)
+
+/-- the repaired SDS key determines everything generation reads of the request -/
+theorem sds_key_complete (mesh : Option Nat) (a b : SdsReq) (h : a.keyFixed mesh = b.keyFixed mesh) :
+    a.name = b.name ∧ a.effective mesh = b.effective mesh := by
+  simp only [SdsReq.keyFixed, Prod.mk.injEq] at h
+  exact h
+
+/-- the old key is incomplete as soon as the mesh has a default provider: a proxy without ProxyConfig
+    and a proxy whose ProxyConfig names no provider share a key although generation differs
+    (replayed on the real code by corpus case `keys.pkp-mesh-default.ops`) -/
+theorem sds_key_witness_unfixed :
+    ∃ (mesh : Option Nat) (a b : SdsReq), a.keyUnfixed = b.keyUnfixed ∧ a.effective mesh ≠ b.effective mesh :=
+  ⟨some 1, ⟨0, none⟩, ⟨0, some none⟩, by decide, by decide⟩
+
+/-! ## The reverse index does not leak: every edge is live or pending in the evict queue -/
+
+section
+variable {K C V : Type} [DecidableEq K] [DecidableEq C]
+
+/-- an index edge is backed by a live entry -/
+def LiveEdge (s : List (Entry K C V)) (p : C × K) : Prop := ∃ e ∈ s, e.key = p.2 ∧ p.1 ∈ e.deps
+/-- ... or by a pending item of the evict queue -/
+def QueuedEdge (q : List (K × List C)) (p : C × K) : Prop := ∃ x ∈ q, x.1 = p.2 ∧ p.1 ∈ x.2
+
+/-- no index edge is orphaned: each is backed by a live entry or a pending queue item -/
+def Justified (c : Cache K C V) : Prop := ∀ p ∈ c.index, LiveEdge c.store p ∨ QueuedEdge c.evictQ p
+
+theorem QueuedEdge.append_left {q q' : List (K × List C)} {p : C × K} (h : QueuedEdge q p) : QueuedEdge (q ++ q') p := by
+  obtain ⟨x, hx, h1, h2⟩ := h
+  exact ⟨x, List.mem_append_left _ hx, h1, h2⟩
+
+theorem mem_dropLast_or_last {α : Type} (l : List α) (x : α) (hx : x ∈ l) :
+    x ∈ l.dropLast ∨ l.getLast? = some x := by
+  induction l with
+  | nil => cases hx
+  | cons a as ih =>
+    cases as with
+    | nil =>
+      have : x = a := by simpa using hx
+      subst this; right; rfl
+    | cons b bs =>
+      rcases List.mem_cons.mp hx with rfl | h
+      · left; simp [List.dropLast]
+      · rcases ih h with h1 | h1
+        · left; simp only [List.dropLast_cons_cons, List.mem_cons]; exact Or.inr h1
+        · right; simpa [List.getLast?_cons_cons] using h1
+
+theorem mem_orderBatch {ord : List K} {rem : List (Entry K C V)} (hn : KeysNodup rem) {x : Entry K C V}
+    (hx : x ∈ rem) : x ∈ orderBatch ord rem := by
+  induction ord generalizing rem with
+  | nil => exact hx
+  | cons k ks ih =>
+    unfold orderBatch
+    cases hf : find? k rem with
+    | none => exact ih hn hx
+    | some e =>
+      have he := find?_some hf
+      by_cases hk : x.key = k
+      · have : x = e := hn.eq_of_key hx he.1 (hk.trans he.2.symm)
+        subst this; exact List.mem_cons_self
+      · exact List.mem_cons_of_mem _ (ih (hn.sublist (eraseKey_sublist _ _)) (mem_eraseKey.mpr ⟨hx, hk⟩))
+
+theorem Justified.add {c : Cache K C V} (hi : Inv c) (h : Justified c) (k : K) (v : Option V) (start : Option Nat)
+    (deps : List C) : Justified (c.add k v start deps) := by
+  unfold Cache.add
+  split
+  · exact h
+  · rename_i tok
+    split
+    · exact h
+    · split
+      · rename_i cur hf
+        have hc := find?_some hf
+        split
+        · intro p hp
+          rcases h p hp with ⟨e, he, h1, h2⟩ | hq
+          · exact Or.inl ⟨e, (mem_front hi.nodup hf).mpr he, h1, h2⟩
+          · exact Or.inr hq
+        · intro p hp
+          rcases mem_addEdges.mp hp with ⟨h1, h2⟩ | hp'
+          · exact Or.inl ⟨_, List.mem_cons_self, h1.symm, h2⟩
+          · rcases h p hp' with ⟨e, he, h1, h2⟩ | hq
+            · by_cases hk : e.key = k
+              · have : e = cur := hi.nodup.eq_of_key he hc.1 (hk.trans hc.2.symm)
+                subst this
+                exact Or.inr ⟨(k, e.deps), by simp, by simpa using hk.symm.trans h1, h2⟩
+              · exact Or.inl ⟨e, List.mem_cons_of_mem _ (mem_eraseKey.mpr ⟨he, hk⟩), h1, h2⟩
+            · exact Or.inr hq.append_left
+      · rename_i hf
+        split
+        · intro p hp
+          rcases mem_addEdges.mp hp with ⟨h1, h2⟩ | hp'
+          · -- the new entry is at the front; it survives dropLast unless it is also the last, i.e. the store was empty
+            rcases mem_dropLast_or_last ({ key := k, val := v, token := tok, deps := deps } :: c.store) _ List.mem_cons_self with hd | hl
+            · exact Or.inl ⟨_, hd, h1.symm, h2⟩
+            · refine Or.inr ⟨(k, deps), ?_, h1.symm, h2⟩
+              simp only [evictRecord, hl, List.mem_append, List.mem_singleton]
+              exact Or.inr trivial
+          · rcases h p hp' with ⟨e, he, h1, h2⟩ | hq
+            · rcases mem_dropLast_or_last ({ key := k, val := v, token := tok, deps := deps } :: c.store) e (List.mem_cons_of_mem _ he) with hd | hl
+              · exact Or.inl ⟨e, hd, h1, h2⟩
+              · refine Or.inr ⟨(e.key, e.deps), ?_, h1, h2⟩
+                simp only [evictRecord, hl, List.mem_append, List.mem_singleton]
+                exact Or.inr trivial
+            · exact Or.inr hq.append_left
+        · intro p hp
+          rcases mem_addEdges.mp hp with ⟨h1, h2⟩ | hp'
+          · exact Or.inl ⟨_, List.mem_cons_self, h1.symm, h2⟩
+          · rcases h p hp' with ⟨e, he, h1, h2⟩ | hq
+            · exact Or.inl ⟨e, List.mem_cons_of_mem _ he, h1, h2⟩
+            · exact Or.inr hq
+
+theorem Justified.get {c : Cache K C V} (hi : Inv c) (h : Justified c) (k : K) : Justified (c.get k) := by
+  intro p hp
+  rcases h p hp with ⟨e, he, h1, h2⟩ | hq
+  · exact Or.inl ⟨e, (mem_promote hi.nodup).mpr he, h1, h2⟩
+  · exact Or.inr hq
+
+theorem Justified.clear {c : Cache K C V} (hi : Inv c) (h : Justified c) (now : Nat) (cs : List C) (ord : List K) :
+    Justified (c.clear now cs ord) := by
+  intro p hp
+  unfold Cache.clear at hp ⊢
+  simp only [List.mem_filter] at hp
+  rcases h p hp.1 with ⟨e, he, h1, h2⟩ | hq
+  · by_cases hv : e.key ∈ refKeys cs c.index
+    · refine Or.inr ⟨(e.key, e.deps), ?_, h1, h2⟩
+      simp only [List.mem_append, List.mem_map]
+      refine Or.inr ⟨e, mem_orderBatch (hi.nodup.sublist List.filter_sublist) ?_, rfl⟩
+      simp only [List.mem_filter, decide_eq_true_eq]
+      exact ⟨he, hv⟩
+    · refine Or.inl ⟨e, ?_, h1, h2⟩
+      simp only [List.mem_filter, Bool.not_eq_true', decide_eq_false_iff_not]
+      exact ⟨he, hv⟩
+  · exact Or.inr hq.append_left
+
+/-- loop invariant of `Flush`: every edge is live or backed by a *not yet processed* queue item -/
+theorem flushQueue_justified (q : List (K × List C)) (c : Cache K C V) (hi : Inv c)
+    (h : ∀ p ∈ c.index, LiveEdge c.store p ∨ QueuedEdge q p) :
+    ∀ p ∈ (flushQueue q c).index, LiveEdge (flushQueue q c).store p := by
+  induction q generalizing c with
+  | nil =>
+    intro p hp
+    rcases h p hp with hl | ⟨x, hx, _⟩
+    · exact hl
+    · cases hx
+  | cons x xs ih =>
+    apply ih (clearConfigIndex c x.1 x.2) (hi.clearConfigIndex x.1 x.2)
+    intro p hp
+    unfold C06.clearConfigIndex at hp ⊢
+    split at hp
+    · rename_i cur hf
+      have hc := find?_some hf
+      simp only [List.mem_filter, Bool.not_eq_true', Bool.and_eq_false_imp, Bool.and_eq_true,
+        decide_eq_true_eq, Bool.not_eq_false', and_imp] at hp
+      rcases h p hp.1 with ⟨e, he, h1, h2⟩ | ⟨y, hy, h1, h2⟩
+      · exact Or.inl ⟨e, (mem_front hi.nodup hf).mpr he, h1, h2⟩
+      · rcases List.mem_cons.mp hy with rfl | hy'
+        · exact Or.inl ⟨cur, List.mem_cons_self, hc.2.trans h1, hp.2 h1.symm h2⟩
+        · exact Or.inr ⟨y, hy', h1, h2⟩
+    · rename_i hf
+      simp only [List.mem_filter, Bool.not_eq_true', Bool.and_eq_false_imp, decide_eq_true_eq,
+        decide_eq_false_iff_not] at hp
+      rcases h p hp.1 with hl | ⟨y, hy, h1, h2⟩
+      · exact Or.inl hl
+      · rcases List.mem_cons.mp hy with rfl | hy'
+        · exact absurd h2 (hp.2 h1.symm)
+        · exact Or.inr ⟨y, hy', h1, h2⟩
+
+theorem Justified.flush {c : Cache K C V} (hi : Inv c) (h : Justified c) :
+    ∀ p ∈ c.flush.index, LiveEdge c.flush.store p :=
+  flushQueue_justified c.evictQ c hi h
+
+theorem Justified.step {c : Cache K C V} (hi : Inv c) (h : Justified c) (op : Op K C V) : Justified (c.step op) := by
+  cases op with
+  | add k v start deps => exact h.add hi k v start deps
+  | get k => exact h.get hi k
+  | clear now cs ord => exact h.clear hi now cs ord
+  | clearAll now newCap => intro p hp; cases hp
+  | flush => intro p hp; exact Or.inl (h.flush hi p hp)
+
+theorem Justified.run {c : Cache K C V} (hi : Inv c) (h : Justified c) (ops : List (Op K C V)) : Justified (c.run ops) := by
+  induction ops generalizing c with
+  | nil => exact h
+  | cons op ops ih => exact ih (hi.step op) (h.step hi op)
+
+/-- **index_justified.** In every reachable state every edge of the reverse index is backed by a live
+    entry or by a pending item of the evict queue. -/
+theorem index_justified (cap : Nat) (ops : List (Op K C V)) :
+    ∀ p ∈ ((Cache.new cap).run ops).index,
+      (∃ e ∈ ((Cache.new cap).run ops).store, e.key = p.2 ∧ p.1 ∈ e.deps) ∨
+      (∃ x ∈ ((Cache.new cap).run ops).evictQ, x.1 = p.2 ∧ p.1 ∈ x.2) :=
+  Justified.run (Inv.new cap) (fun p hp => by cases hp) ops
+
+/-- **flush_no_leak.** After `Flush`, whatever happened before, the reverse index holds exactly the
+    live dependencies: nothing leaks (and, by `index_complete`, nothing is missing). -/
+theorem flush_no_leak (cap : Nat) (ops : List (Op K C V)) :
+    ∀ p ∈ ((Cache.new cap).run ops).flush.index,
+      ∃ e ∈ ((Cache.new cap).run ops).flush.store, e.key = p.2 ∧ p.1 ∈ e.deps :=
+  Justified.flush ((Inv.new cap).run ops) (index_justified cap ops)
+
+end
 
 /-! ## XdsCacheImpl: dispatch and the PeerAuthentication rule -/
 
